@@ -370,6 +370,44 @@ def _updown_on_raise(old, s, a, exc):
         yield "walker-refused-a-position-it-reported-nothing-moved", both(same_scroll_state(s, old), walker_focus(s, "now")[1] == walker_focus(old, "entry")[1])
 
 
+def _updown_summary(old, s, a, result):
+    """What a caller (keypress, mouse_event) is told -- the last clauses of the verified postcondition."""
+    now = walker_focus(s, "exit")
+    was = walker_focus(old, "entry")
+    yield "still-a-focus", neg(mk_bool(now[0].isnone))
+    yield "unhandled-nothing-changed", implies(V.opt_eq(result, True), both(same_scroll_state(s, old), V.opt_eq(s.pref_col, old.pref_col), now[1] == was[1], V.opt_eq(now[0], was[0])))
+    # (a focus widget without rows has no row to show: 'up' in a 1-row box can hand the focus to a 0-row widget fetched from
+    # above at offset 1 -- calculate_visible clamps such an offset when it next looks)
+    no_rows = rows_of(val(now[0]), a.size[0], True) == 0
+    yield "handled-scroll-state-sane-focus-row-inside-the-box-unless-nothing-changed", implies(V.opt_isnone(result), both(lb_ok(s), either(s.offset_rows < a.size[1], same_scroll_state(s, old), no_rows)))
+
+
+def _updown_effects(old, s, a, result):
+    st = cur()
+    st.ghost["updown_before"] = walker_focus(s)
+    PROTOCOLS["ListWalker"].bump(st, s._body)
+
+
+def _updown_ensures_callee(old, s, a, result):
+    was = cur().ghost["updown_before"]
+    now = walker_focus(s)
+    yield "handled-or-not", either(V.opt_isnone(result), V.opt_eq(result, True))
+    yield "still-a-focus", neg(mk_bool(now[0].isnone))
+    yield "unhandled-nothing-changed", implies(V.opt_eq(result, True), both(same_scroll_state(s, old), V.opt_eq(s.pref_col, old.pref_col), now[1] == was[1], V.opt_eq(now[0], was[0])))
+    no_rows = rows_of(val(now[0]), a.size[0], True) == 0
+    yield "handled-scroll-state-sane-focus-row-inside-the-box-unless-nothing-changed", implies(V.opt_isnone(result), both(lb_ok(s), either(s.offset_rows < a.size[1], same_scroll_state(s, old), no_rows)))
+
+
+def _updown_on_raise_callee(old, s, a, exc):
+    if exc.cls is _lbmod.ListBoxError:
+        st = cur()
+        PROTOCOLS["ListWalker"].bump(st, s._body)  # the focus has moved already
+        tw = val(walker_focus(s)[0])
+        yield "only-for-a-new-focus-widget-whose-height-depends-on-focus", neg(rows_of(tw, a.size[0], True) == rows_of(tw, a.size[0], False))
+    else:
+        yield "walker-refused-a-position-it-reported-nothing-moved", same_scroll_state(s, old)
+
+
 def _handled_state(s, rows, final, maxrow):
     """After a handled key: the scroll state stored is sane and puts a row of the (new) focus widget inside the box."""
     return both(lb_ok(s), final < maxrow, either(final >= 0, final + rows >= 1))
@@ -397,8 +435,16 @@ class lb_keypress_up:
     }
 
     requires = staticmethod(_up_requires)
+    effects = staticmethod(lambda old, s, a, result: _updown_effects(old, s, a, result))
+    ensures_callee = staticmethod(lambda old, s, a, result: _updown_ensures_callee(old, s, a, result))
+    on_raise_callee = staticmethod(lambda old, s, a, exc: _updown_on_raise_callee(old, s, a, exc))
 
     def ensures(old, s, a, result):
+        yield from lb_keypress_up.outcomes(old, s, a, result)
+        yield from _updown_summary(old, s, a, result)
+
+    @staticmethod
+    def outcomes(old, s, a, result):
         st = cur()
         maxcol, maxrow = a.size
         vis = Vis()
@@ -543,8 +589,16 @@ class lb_keypress_down:
     }
 
     requires = staticmethod(_up_requires)
+    effects = staticmethod(lambda old, s, a, result: _updown_effects(old, s, a, result))
+    ensures_callee = staticmethod(lambda old, s, a, result: _updown_ensures_callee(old, s, a, result))
+    on_raise_callee = staticmethod(lambda old, s, a, exc: _updown_on_raise_callee(old, s, a, exc))
 
     def ensures(old, s, a, result):
+        yield from lb_keypress_down.outcomes(old, s, a, result)
+        yield from _updown_summary(old, s, a, result)
+
+    @staticmethod
+    def outcomes(old, s, a, result):
         st = cur()
         maxcol, maxrow = a.size
         vis = Vis()
@@ -694,3 +748,30 @@ def _max_contract(name, reverse, valign):
 
 lb_keypress_max_left = _max_contract("_keypress_max_left", False, "top")
 lb_keypress_max_right = _max_contract("_keypress_max_right", True, "bottom")
+
+
+
+def _empty_key_contract(name):
+    @contract(LBX + f"ListBox.{name}", property=("C07", "C08"), replayable=False, alias="empty", contract_overrides={_CV: lb_calculate_visible_empty})
+    class k:
+        """An empty list: the key comes back (True), nothing is asked of the walker beyond its focus, nothing changes."""
+
+        self_shape = LB
+        params = dict(size=Tup(Int, Int))
+        result = Opt(Bool)
+        raises = ()
+        modifies = ()
+
+        def requires(s, a):
+            return both(no_change_pending(s), is_empty(s))
+
+        def ensures(old, s, a, result):
+            yield "comes-back", V.opt_eq(result, True)
+            yield "nothing-changed", both(same_scroll_state(s, old), V.opt_eq(s.pref_col, old.pref_col), count_ev(s.trace, "_invalidate") == 0)
+            yield "nothing-asked", len([ev for ev in cur().trace if ev[0] == "call"]) == 0
+
+    return k
+
+
+lb_keypress_up_empty = _empty_key_contract("_keypress_up")
+lb_keypress_down_empty = _empty_key_contract("_keypress_down")
